@@ -12,10 +12,14 @@ from tableschema.exceptions import CastError
 from .. import canon, fast, stepcorr as S  # noqa: F401
 from ..common import quiet
 
+import decimal as _dec
+
+# lexical values (as read from text sources) and native ones (as produced by Python sources and earlier steps);
+# 1 / True / 1.0 / Decimal(1) are equal in Python and are not the same value for a cast
 LEX = {
-    'integer': (['1', '-5', '0', '12', '007', None], ['x', '1.5', 'one', '1e3']),
-    'number': (['1.5', '-2', '10', '0.25', None], ['x', '1,5', 'nan?', '--1']),
-    'boolean': (['true', 'false', 'True', 'False', None], ['x', 'maybe', '2']),
+    'integer': (['1', '-5', '0', '12', '007', None, 1, 0, 12], ['x', '1.5', 'one', '1e3', True, False, 1.5, _dec.Decimal('2.5')]),
+    'number': (['1.5', '-2', '10', '0.25', None, 1.5, 2, 1, _dec.Decimal('0.25')], ['x', '1,5', 'nan?', '--1', True, False]),
+    'boolean': (['true', 'false', 'True', 'False', None, True, False], ['x', 'maybe', '2', 1, 0, 1.0]),
     'date': (['2020-01-31', '1999-12-01', None], ['2020-13-01', 'x', '31/01/2020']),
     'year': (['2000', '1999', None], ['x', '20x0']),
 }
